@@ -346,6 +346,11 @@ def S(**kw):
     return Spec(**kw)
 
 
+# worlds whose histories only make sense with an alphabet of their own (what a user can do at all): not for the plans that
+# run "every curated world" with the standard alphabet
+OWN_ALPHABET = {"ifcreate-under-file"}
+
+
 def curated() -> Dict[str, World]:
     W = {}
     V3 = ["0", "1", "2"]
